@@ -1121,3 +1121,179 @@ Definition C07_full_statement
     (forall err sp, placed cfg s err sp ->
        exists d l, In d (diags res) /\ sd_is_error d = err /\ hd_error (sd_labels d) = Some l /\ label_touches l sp) /\
     is_valid res = has_output res && negb (existsb sd_is_error (diags res)).
+
+(* ================================================================ the diagnostics of the CODE and the constructors
+   of the models.  The theorems above quantify over the diagnostics of the models: the codes D_.. the parser model
+   builds with [error] / [warn], the 24 kinds of Model/AnalysisDiag.v.  gen/gen_diags.py reads, on every run of the
+   check, every place of the non-test code of src/parser, src/analysis, src/lexer, src/metadata.rs, src/lib.rs and
+   src/error.rs where a diagnostic is made (error!(..), warning!(..), SourceDiag::error / ::warning / ::unlabeled,
+   .into_source_diag(..), the struct literals of error.rs) or a diagnostic made elsewhere is pushed, into
+   Gen/DiagSites.v - (stage, file, enclosing fn, how, severity of the macro, the push methods seen, ordinal in the
+   fn, message), no line numbers.  What is pinned and mapped is [site_key]: the entry WITHOUT its message (the
+   property does not talk about wording; the wording beside each key below is a comment, as of the day the list
+   was written).  Model/DiagMap.v maps every key to its constructor. *)
+From Coq Require Import String.
+From CL Require Import Gen.DiagSites Model.DiagMap.
+From CL Require Proofs.DiagMapProofs Proofs.DiagSeverity.
+Local Open Scope string_scope.
+
+(* the keys of the inventory are this list: a diagnostic that is added, dropped, moved to another function, an
+   error! that becomes a warning! (or is handed to ctx.warn) changes them and breaks this obligation (rewording a
+   message does not); checks/c07.py reports the difference entry by entry, with the messages *)
+Theorem C07_diag_inventory : map site_key DiagSites.sites = [
+  Key AtAnalysis "event_consumer" "error!" "SourceDiag::error" IsError [] 0;   (* "<$msg>" *)
+  Key AtAnalysis "event_consumer" "error!" "SourceDiag::unlabeled" IsError [] 1;   (* "<$msg>" *)
+  Key AtAnalysis "event_consumer" "warning!" "SourceDiag::warning" IsWarning [] 0;   (* "<$msg>" *)
+  Key AtAnalysis "event_consumer" "warning!" "SourceDiag::unlabeled" IsWarning [] 1;   (* "<$msg>" *)
+  Key AtAnalysis "event_consumer" "parse_events" "forward" IsError [ByError "self.ctx"] 0;   (* "<e>" *)
+  Key AtAnalysis "event_consumer" "parse_events" "forward" IsDynamic [ByPush "self.ctx"] 1;   (* "<e>" *)
+  Key AtAnalysis "event_consumer" "parse_events" "forward" IsWarning [ByWarn "self.ctx"] 2;   (* "<w>" *)
+  Key AtAnalysis "event_consumer" "parse_events" "warning!" IsWarning [ByWarn "self.ctx"] 3;   (* "The '>>' syntax for metadata is deprecated, use a YAML frontmatter" *)
+  Key AtAnalysis "event_consumer" "process_frontmatter" "error!" IsError [ByError "self.ctx"] 0;   (* "<err.to_string()>" *)
+  Key AtAnalysis "event_consumer" "process_frontmatter" ".into_source_diag" IsDynamic [ByPush "self.ctx"] 1;   (* "Invalid metadata entry" *)
+  Key AtAnalysis "event_consumer" "process_frontmatter" "warning!" IsWarning [ByWarn "self.ctx"] 2;   (* "Unsupported value for key: '{}'" *)
+  Key AtAnalysis "event_consumer" "process_frontmatter" "warning!" IsWarning [ByWarn "self.ctx"] 3;   (* "Time overriden" *)
+  Key AtAnalysis "event_consumer" "metadata" "error!" IsError [ByError "self.ctx"] 0;   (* "Invalid value for config key '{key_t}': {value_t}" *)
+  Key AtAnalysis "event_consumer" "metadata" "warning!" IsWarning [ByWarn "self.ctx"] 1;   (* "Unknown config metadata key: {key_t}" *)
+  Key AtAnalysis "event_consumer" "metadata" ".into_source_diag" IsDynamic [ByPush "self.ctx"] 2;   (* "Invalid metadata entry" *)
+  Key AtAnalysis "event_consumer" "metadata" "warning!" IsWarning [ByWarn "self.ctx"] 3;   (* "Unsupported value for key: '{}'" *)
+  Key AtAnalysis "event_consumer" "time_override_check" "warning!" IsWarning [ByWarn "self.ctx"] 0;   (* "Time overridden" *)
+  Key AtAnalysis "event_consumer" "in_step" "warning!" IsWarning [ByWarn "self.ctx"] 0;   (* "Ignoring text in define components mode" *)
+  Key AtAnalysis "event_consumer" "in_text" "warning!" IsWarning [ByWarn "self.ctx"] 0;   (* "Ignoring {c} in text mode" *)
+  Key AtAnalysis "event_consumer" "ingredient" "error!" IsError [ByError "self.ctx"] 0;   (* "Conflicting modifiers with intermediate preparation reference" *)
+  Key AtAnalysis "event_consumer" "ingredient" "forward" IsError [ByError "self.ctx"] 1;   (* "<error>" *)
+  Key AtAnalysis "event_consumer" "ingredient" "warning!" IsWarning [ByWarn "self.ctx"] 2;   (* "Incompatible units prevent calculating total amount" *)
+  Key AtAnalysis "event_consumer" "ingredient" ".into_source_diag" IsDynamic [ByPush "self.ctx"] 3;   (* "Referenced recipe not found: {}" *)
+  Key AtAnalysis "event_consumer" "resolve_intermediate_ref" "error!" IsError [] 0;   (* "{INVALID}: number is 0" *)
+  Key AtAnalysis "event_consumer" "resolve_intermediate_ref" "error!" IsError [] 1;   (* "{INVALID}: relative reference to self" *)
+  Key AtAnalysis "event_consumer" "resolve_intermediate_ref" "error!" IsError [] 2;   (* "{INVALID}: value out of bounds" *)
+  Key AtAnalysis "event_consumer" "timer" "error!" IsError [ByError "self.ctx"] 0;   (* "Timer value is text: {}" *)
+  Key AtAnalysis "event_consumer" "timer" "error!" IsError [ByError "self.ctx"] 1;   (* "Timer unit is not time: {unit}" *)
+  Key AtAnalysis "event_consumer" "timer" "error!" IsError [ByError "self.ctx"] 2;   (* "Unknown timer unit: {unit_text}" *)
+  Key AtAnalysis "event_consumer" "value" "warning!" IsWarning [ByWarn "self.ctx"] 0;   (* "Unnecessary scaling lock modifier" *)
+  Key AtAnalysis "event_consumer" "resolve_reference" "error!" IsError [ByError "self.ctx"] 0;   (* "Unsupported modifier combination with reference: {conflict}" *)
+  Key AtAnalysis "event_consumer" "resolve_reference" "warning!" IsWarning [ByWarn "self.ctx"] 1;   (* "Redundant {redundant} modifier" *)
+  Key AtAnalysis "event_consumer" "resolve_reference" "error!" IsError [ByError "self.ctx"] 2;   (* "Reference not found: {}" *)
+  Key AtAnalysis "event_consumer" "note_reference_error" "error!" IsError [ByError "self.ctx"] 0;   (* "Note not allowed in reference" *)
+  Key AtAnalysis "event_consumer" "conflicting_reference_quantity_error" "error!" IsError [ByError "self.ctx"] 0;   (* "Conflicting component reference quantities" *)
+  Key AtAnalysis "event_consumer" "text_val_in_ref_warn" "warning!" IsWarning [ByWarn "self.ctx"] 0;   (* "Text value may prevent calculating total amount" *)
+  Key AtAnalysis "mod" "into_source_diag" "SourceDiag::unlabeled" IsDynamic [] 0;   (* "<message()>" *)
+  Key AtAny "error" "error" "SourceDiag{}" IsError [] 0;   (* "<message.into()>" *)
+  Key AtAny "error" "warning" "SourceDiag{}" IsWarning [] 0;   (* "<message.into()>" *)
+  Key AtAny "error" "unlabeled" "SourceDiag{}" IsDynamic [] 0;   (* "<message.into()>" *)
+  Key AtParse "metadata" "metadata_entry" "warning!" IsWarning [ByWarn "block"] 0;   (* "A metadata block is invalid and it will be a step" *)
+  Key AtParse "metadata" "metadata_entry" "error!" IsError [ByError "block"] 1;   (* "Empty metadata key" *)
+  Key AtParse "metadata" "metadata_entry" "warning!" IsWarning [ByWarn "block"] 2;   (* "Empty metadata value for key: {}" *)
+  Key AtParse "mod" "error!" "SourceDiag::error" IsError [] 0;   (* "<$msg>" *)
+  Key AtParse "mod" "warning!" "SourceDiag::warning" IsWarning [] 0;   (* "<$msg>" *)
+  Key AtParse "quantity" "parse_regular_quantity" "warning!" IsWarning [ByWarn "bp"] 0;   (* "Empty quantity unit" *)
+  Key AtParse "quantity" "parse_advanced_quantity" "forward" IsError [ByError "bp"] 0;   (* "<err>" *)
+  Key AtParse "quantity" "parse_value" "forward" IsError [ByError "bp"] 0;   (* "<err>" *)
+  Key AtParse "quantity" "text_value" "error!" IsError [ByError "bp"] 0;   (* "Empty quantity value" *)
+  Key AtParse "quantity" "frac" "error!" IsError [] 0;   (* "Division by zero" *)
+  Key AtParse "quantity" "int" "error!" IsError [] 0;   (* "Error parsing integer number" *)
+  Key AtParse "quantity" "float" "error!" IsError [] 0;   (* "Error parsing decimal number" *)
+  Key AtParse "section" "section" "warning!" IsWarning [ByWarn "block"] 0;   (* "A section block is invalid and it will be a step" *)
+  Key AtParse "step" "comp_body" "warning!" IsWarning [ByWarn "bp"] 0;   (* "Invalid single word name, the component will be ignored" *)
+  Key AtParse "step" "parse_modifiers" "error!" IsError [ByError "bp"] 0;   (* "Duplicate modifier: {}" *)
+  Key AtParse "step" "parse_intermediate_ref_data" "error!" IsError [ByError "bp"] 0;   (* "{INVALID}: empty" *)
+  Key AtParse "step" "parse_intermediate_ref_data" "error!" IsError [ByError "bp"] 1;   (* "{INVALID}: wrong relative section order" *)
+  Key AtParse "step" "parse_intermediate_ref_data" "error!" IsError [ByError "bp"] 2;   (* "{INVALID}: value sign" *)
+  Key AtParse "step" "parse_intermediate_ref_data" "error!" IsError [ByError "bp"] 3;   (* "Invalid intermediate preparation reference" *)
+  Key AtParse "step" "parse_intermediate_ref_data" "error!" IsError [ByError "bp"] 4;   (* "Error parsing integer number" *)
+  Key AtParse "step" "parse_alias" "error!" IsError [ByError "bp"] 0;   (* "Invalid {container}: multiple aliases" *)
+  Key AtParse "step" "parse_alias" "error!" IsError [ByError "bp"] 1;   (* "Invalid {container}: empty alias" *)
+  Key AtParse "step" "cookware" "error!" IsError [ByError "bp"] 0;   (* "Invalid cookware quantity: unit" *)
+  Key AtParse "step" "cookware" "error!" IsError [ByError "bp"] 1;   (* "Invalid cookware modifiers: recipe modifier not allowed" *)
+  Key AtParse "step" "timer" "error!" IsError [ByError "bp"] 0;   (* "Invalid timer quantity: missing unit" *)
+  Key AtParse "step" "timer" "error!" IsError [ByError "bp"] 1;   (* "Invalid timer: missing quantity" *)
+  Key AtParse "step" "timer" "error!" IsError [ByError "bp"] 2;   (* "Invalid timer: neither quantity nor name" *)
+  Key AtParse "step" "check_modifiers" "error!" IsError [ByError "bp"] 0;   (* "Invalid {container}: modifiers not allowed" *)
+  Key AtParse "step" "check_intermediate_data" "error!" IsError [ByError "bp"] 0;   (* "Invalid {container}: intermediate preparation reference not allowed" *)
+  Key AtParse "step" "check_alias" "error!" IsError [ByError "bp"] 0;   (* "Invalid {container}: alias not allowed" *)
+  Key AtParse "step" "check_note" "warning!" IsWarning [ByWarn "bp"] 0;   (* "A {container} cannot have a note, it will be text" *)
+  Key AtParse "step" "check_empty_name" "error!" IsError [ByError "bp"] 0   (* "Invalid {container} name: is empty" *)
+].
+Proof. reflexivity. Qed.
+Print Assumptions C07_diag_inventory.
+
+(* the table of Model/DiagMap.v has exactly the keys of the inventory as keys, in order *)
+Theorem C07_diag_table_keys : map fst DiagMap.table = map site_key DiagSites.sites.
+Proof. exact DiagMapProofs.table_keys. Qed.
+Print Assumptions C07_diag_table_keys.
+
+(* an entry that stands for a kind of the analysis model is of the Analysis stage, has the severity
+   [kind_is_error] gives that kind (C07_kind_severity: the severity of the model's SourceDiag), and no push method
+   it is handed to asserts the other severity *)
+Theorem C07_diag_kind_severity :
+  forall s k, In (s, AKind k) DiagMap.table ->
+  key_stage s = AtAnalysis /\ key_sev s = sev_of_bool (kind_is_error k) /\
+  forallb (push_ok (key_sev s)) (key_pushes s) = true.
+Proof. exact DiagMapProofs.table_kind_severity. Qed.
+Print Assumptions C07_diag_kind_severity.
+
+(* an entry that stands for a parse-stage code is of the Parse stage, the code is one of the 27 of
+   [DiagMap.all_pcodes], and the entry has the severity the parser model builds that code with *)
+Theorem C07_diag_pcode_severity :
+  forall s c, In (s, PCode c) DiagMap.table ->
+  key_stage s = AtParse /\ pcode_sev c = Some (pcode_is_error c) /\ key_sev s = sev_of_bool (pcode_is_error c) /\
+  forallb (push_ok (key_sev s)) (key_pushes s) = true.
+Proof. exact DiagMapProofs.table_pcode_severity. Qed.
+Print Assumptions C07_diag_pcode_severity.
+
+(* the constructors SourceDiag::error / ::warning / ::unlabeled and the bodies of the macros error! / warning! give
+   the severity their name says *)
+Theorem C07_diag_ctor_severity :
+  forall s, In (s, Ctor) DiagMap.table -> ctor_ok s = true.
+Proof. exact DiagMapProofs.table_ctor_ok. Qed.
+Print Assumptions C07_diag_ctor_severity.
+
+(* [pcode_sev] IS the severity of the parser model: every diagnostic it emits, for every source, extension set and
+   Unicode classification, has one of the 27 codes and was built with [error] exactly when the table says so *)
+Theorem C07_parse_severity_by_code :
+  forall U cfg s evs d,
+  events U cfg s = Done evs -> In (EvDiag d) evs -> pcode_sev (d_code d) = Some (d_err d).
+Proof. exact DiagSeverity.events_code_severity. Qed.
+Print Assumptions C07_parse_severity_by_code.
+
+(* no constructor of the models is without a place in the code: every kind of C07_kinds_enumerated and every
+   parse-stage code is the image of an entry *)
+Theorem C07_diag_kinds_covered : forall k : akind, exists s, In (s, AKind k) DiagMap.table.
+Proof. exact DiagMapProofs.kinds_covered. Qed.
+Print Assumptions C07_diag_kinds_covered.
+
+Theorem C07_diag_pcodes_covered : forall c : N, In c DiagMap.all_pcodes -> exists s, In (s, PCode c) DiagMap.table.
+Proof. exact DiagMapProofs.pcodes_covered. Qed.
+Print Assumptions C07_diag_pcodes_covered.
+
+(* together: a diagnostic of the parser model / of the analysis model is made at a listed place of the code, of
+   its stage, whose macro has its severity *)
+Theorem C07_parse_diag_has_site :
+  forall U cfg s evs d,
+  events U cfg s = Done evs -> In (EvDiag d) evs ->
+  exists st, In st DiagSites.sites /\ In (site_key st, PCode (d_code d)) DiagMap.table /\
+             site_stage st = AtParse /\ site_sev st = sev_of_bool (d_err d).
+Proof. exact DiagMapProofs.parse_diag_has_site. Qed.
+Print Assumptions C07_parse_diag_has_site.
+
+Theorem C07_analysis_diag_has_site :
+  forall d : adiag,
+  exists st, In st DiagSites.sites /\ In (site_key st, AKind (ad_kind d)) DiagMap.table /\
+             site_stage st = AtAnalysis /\ site_sev st = sev_of_bool (sd_is_error (to_sdiag d)).
+Proof. exact DiagMapProofs.analysis_diag_has_site. Qed.
+Print Assumptions C07_analysis_diag_has_site.
+
+(* the converse fails for exactly these five entries: diagnostics of the code that NO constructor of the models
+   stands for, so that every theorem of this file quantifies over fewer diagnostics than the code has.  Four belong
+   to the callbacks of ParseOptions (metadata_validator, recipe_ref_check: a CheckResult turned into a diagnostic of
+   the severity the callback chose; the models are those of the default options, which have none), one is the error
+   of float() of quantity.rs for a failing f64 parse of a float token (float() of Model/Parser.v is total) *)
+Theorem C07_diag_unmodelled : DiagMapProofs.unmodelled_sites = [
+  Key AtAnalysis "event_consumer" "process_frontmatter" ".into_source_diag" IsDynamic [ByPush "self.ctx"] 1;   (* "Invalid metadata entry" *)
+  Key AtAnalysis "event_consumer" "metadata" ".into_source_diag" IsDynamic [ByPush "self.ctx"] 2;   (* "Invalid metadata entry" *)
+  Key AtAnalysis "event_consumer" "ingredient" ".into_source_diag" IsDynamic [ByPush "self.ctx"] 3;   (* "Referenced recipe not found: {}" *)
+  Key AtAnalysis "mod" "into_source_diag" "SourceDiag::unlabeled" IsDynamic [] 0;   (* "<message()>" *)
+  Key AtParse "quantity" "float" "error!" IsError [] 0   (* "Error parsing decimal number" *)
+].
+Proof. reflexivity. Qed.
+Print Assumptions C07_diag_unmodelled.
